@@ -19,6 +19,19 @@ Runtime side (this file), on datasets on which the whole workflow succeeds:
     gives the fault-free result (or, when the result was already complete, changes
     nothing).  Correspondence: the outcome (pre / post) and the SQL trace of
     each attempt are the ones the Coq model computes from the attempt's events.
+(b') killed inside the commit: the PLAIN command line (no tracer, no wrapper
+    around sqlite3) runs in a child process under RLIMIT_FSIZE = L with SIGXFSZ
+    at its default action, so that the KERNEL kills it at the first write that
+    would make a file longer than L: while SQLite writes the rollback journal
+    (small L), or while the final COMMIT writes pages into the dataset file (L
+    above the journal's size and below the offset of a page the commit has to
+    write; L off a page boundary tears that page).  L sweeps over the pages the
+    commit writes (dirty pages of the fault-free run, file growth included).
+    Afterwards the file is opened (SQLite replays the hot journal): PRAGMA
+    integrity_check must say ok, the dump must be the dump before or the
+    fault-free result, and the step is run again as in (b).  The phase each
+    kill hit (journal write / database page write, how many pages had reached
+    the file, torn page) is measured from the files left behind, not assumed.
 (c) histories: all orders of {classify, set-zeta-grid, set-curvature} and of
     {rise, recession}, with failed attempts (injected faults of every kind, and
     natural failures such as re-running a completed step or running rise before
@@ -28,6 +41,8 @@ import concurrent.futures as cf
 import itertools
 import os
 import shutil
+import signal
+import sqlite3
 import subprocess
 import sys
 import threading
@@ -440,6 +455,213 @@ def check_faults(w, states, dumps, traces, out, case, coq, rng, limit=None, kill
     check_kills(w, kill_jobs, pres, posts, events, out, case, coq)
 
 
+# ------------------------------------------------------------------ (b') killed inside the commit
+
+# The child is the plain command line (what bin/spowtd does) under a file size
+# limit.  CPython ignores SIGXFSZ at start-up: the default action (terminate) is
+# restored, after the imports so that nothing but the step itself is limited.
+FSIZE_CHILD = ('import resource, signal, sys\n'
+               'from spowtd.user_interface import main\n'
+               'signal.signal(signal.SIGXFSZ, signal.SIG_DFL)\n'
+               'hard = resource.getrlimit(resource.RLIMIT_FSIZE)[1]\n'
+               'resource.setrlimit(resource.RLIMIT_FSIZE, (int(sys.argv[1]), hard))\n'
+               'sys.exit(main(sys.argv[2:]))\n')
+CK_REPORT_CAP = 3   # violations listed per dataset, step and kind of damage (all are counted)
+
+
+def file_pages(path):
+    with open(path, 'rb') as f:
+        b = f.read()
+    ps = int.from_bytes(b[16:18], 'big') if len(b) >= 18 else 0
+    ps = 65536 if ps == 1 else ps
+    if ps < 512 or ps & (ps - 1):
+        ps = 4096  # header destroyed: fall back, the integrity check will speak
+    return ps, [b[i:i + ps] for i in range(0, len(b), ps)]
+
+
+def page_states(db, pre_pages, post_pages):
+    """1-based numbers of the pages of `db` that differ from the file before the
+    step (= reached the file) and, among them, of those that are not the page of
+    the fault-free result either (= torn / partially written)."""
+    _, pages = file_pages(db)
+    written, torn = [], []
+    for i, pg in enumerate(pages):
+        if i >= len(pre_pages) or pg != pre_pages[i]:
+            written.append(i + 1)
+            if i >= len(post_pages) or pg != post_pages[i]:
+                torn.append(i + 1)
+    return written, torn, len(pages)
+
+
+def commit_kill_limits(pre_file, post_file, rng, per_step):
+    """File size limits that kill at distinct moments.  The commit writes its dirty
+    pages in page order: limit (d-1)*page_size lets every dirty page below d
+    reach the file and kills at page d; + half a page tears page d.  Limits below
+    the journal's size kill while the journal is written.  per_step=None: all
+    of these and every page boundary."""
+    ps, pre = file_pages(pre_file)
+    _, post = file_pages(post_file)
+    dirty = [i + 1 for i in range(len(post)) if i >= len(pre) or pre[i] != post[i]]
+    inner = [d for d in dirty if d > 1]
+    page = [(d - 1) * ps for d in inner]
+    torn = [(d - 1) * ps + ps // 2 - 8 for d in inner]
+    old = len([d for d in dirty if d <= len(pre)])          # pages the journal holds
+    journal = [0, 300] + [512 + k * (ps + 8) + 1000 for k in range(old)]
+    if per_step is None:
+        return ps, dirty, sorted(set(page + torn + journal + [p * ps for p in range(len(post))]))
+    chosen = set()
+    if page:
+        # every dirty page but the last reached the file / any other cut of the page list
+        chosen.add(page[-1] if rng.random() < 0.5 else rng.choice(page))
+        chosen.add(rng.choice(torn) if rng.random() < 0.6 else rng.choice(journal[1:]))
+    pool = page + torn + page + torn + journal[1:]
+    while pool and len(chosen) < min(per_step, len(set(pool))):
+        chosen.add(rng.choice(pool))
+    return ps, dirty, sorted(chosen)
+
+
+def commit_kill_job(w, step, pre_file, post_file, limit):
+    db = w.fresh(pre_file)
+    env = dict(os.environ, PYTHONPATH=C.REPO)
+    cmd = [sys.executable, '-c', FSIZE_CHILD, str(limit)] + [str(a) for a in w.argv(step, db)]
+    p = subprocess.run(cmd, env=env, cwd=C.VERIF, stdin=subprocess.DEVNULL, stdout=subprocess.PIPE,
+                       stderr=subprocess.STDOUT, timeout=900)
+    jsize = os.path.getsize(db + '-journal') if os.path.exists(db + '-journal') else -1
+    _, pre_pages = file_pages(pre_file)
+    _, post_pages = file_pages(post_file)
+    written, torn, npages = page_states(db, pre_pages, post_pages)
+    return db, p.returncode, jsize, written, torn, npages, p.stdout.decode('utf8', 'replace')[-300:]
+
+
+def open_checked(db):
+    """Open the file the way the next user does (a hot journal is replayed now).
+    Returns (problem or None, dump or None)."""
+    try:
+        con = sqlite3.connect(db)
+        try:
+            rows = con.execute('PRAGMA integrity_check').fetchall()
+        finally:
+            con.close()
+        if rows != [('ok',)]:
+            return 'PRAGMA integrity_check: %s' % '; '.join(str(r[0]) for r in rows[:3]), None
+        return None, D.dump(db)
+    except sqlite3.DatabaseError as e:
+        return 'the file cannot be read: %s: %s' % (type(e).__name__, e), None
+
+
+def check_commit_kills(w, states, dumps, traces, out, case, coq, rng, per_step=2, only=None):
+    """only: [(step, limit)] (replay)."""
+    jobs, info = [], {}
+    for i, step in enumerate(STEPS):
+        ps, dirty, limits = commit_kill_limits(states[i], states[i + 1], rng, per_step)
+        info[step] = (i, ps, dirty)
+        if only is not None:
+            limits = [l for s, l in only if s == step]
+        jobs += [(step, l) for l in limits]
+        out.count('kill-in-commit-dirty-pages:%s' % step, len(dirty))
+        grown = (os.path.getsize(states[i + 1]) - os.path.getsize(states[i])) // ps
+        if grown:
+            out.count('kill-in-commit-new-pages:%s' % step, grown)
+    with cf.ThreadPoolExecutor(max_workers=12) as ex:
+        futs = [ex.submit(commit_kill_job, w, step, states[info[step][0]], states[info[step][0] + 1], limit)
+                for step, limit in jobs]
+        results = [f.result() for f in futs]
+    reported = {}
+    for (step, limit), (db, rc, jsize, written, torn, npages, tail) in zip(jobs, results):
+        i, ps, dirty = info[step]
+        pre, post = dumps[i], dumps[i + 1]
+        c = dict(case, level='commit-kill', step=step, limit=limit)
+        out.evaluations += 1
+        if rc == 0:
+            phase = 'not-killed'
+        elif rc == -signal.SIGXFSZ:
+            phase = ('db-page-write' if written and jsize > 0 else
+                     'db-page-write-NO-JOURNAL-FILE' if written else
+                     'journal-write' if jsize > 0 else 'before-first-write')
+        else:
+            out.violation('corr', 'the command line of `%s` under a file size limit of %d bytes ended with status %s '
+                          '(expected: killed by SIGXFSZ, or success): %s' % (step, limit, rc, tail), case=c)
+            continue
+        where = ('`%s` under RLIMIT_FSIZE=%d bytes (= %.2f pages of %d) %s; files left behind: %d of the %d pages '
+                 'its commit writes had reached the dataset file (pages %s%s), journal file %s'
+                 % (step, limit, limit / ps, ps,
+                    'ran to its end' if rc == 0 else 'was killed by the kernel (SIGXFSZ)', len(written), len(dirty),
+                    written[:12], ', torn: %s' % torn if torn and rc != 0 else '',
+                    'absent' if jsize < 0 else 'of %d bytes' % jsize))
+
+        def report(kind, msg):
+            n = reported[(step, kind)] = reported.get((step, kind), 0) + 1
+            out.count('kill-in-commit-violation:%s:%s' % (step, kind))
+            if n <= CK_REPORT_CAP:
+                out.violation('oracle', msg + (' [further violations of this kind in this step are only counted: '
+                                               'kill-in-commit-violation:* in the evidence]'
+                                               if n == CK_REPORT_CAP else ''), case=c)
+        problem, got = open_checked(db)
+        if problem is not None:
+            out.count('kill-in-commit:%s:damaged' % phase)
+            report('damaged', 'killed while writing: %s. Afterwards the dataset file is DAMAGED, neither the previous '
+                   'content nor the complete result: %s' % (where, problem))
+        else:
+            oc = classify_dump(got, pre, post)
+            out.count('kill-in-commit:%s:%s' % (phase, oc))
+            if torn and rc != 0:
+                out.count('kill-in-commit:torn-page:%s' % oc)
+            journal_gone = not os.path.exists(db + '-journal') or os.path.getsize(db + '-journal') == 0
+            if phase == 'db-page-write' and oc == 'OPre':
+                if journal_gone:
+                    # a hot journal rolled the partly written commit back
+                    out.nontriv(('kill-in-commit-recovered', w.tag, step, tuple(written), tuple(torn)))
+                    out.count('kill-in-commit:hot-journal-replayed')
+            elif phase == 'journal-write' and oc == 'OPre':
+                out.nontriv(('kill-in-journal', w.tag, step, jsize))
+            if oc == 'OMixed':
+                report('mixture', 'killed while writing: %s. Afterwards the dataset is a MIXTURE: differs from the '
+                       'previous content in %s and from the complete result in %s'
+                       % (where, diff_tables(got, pre), diff_tables(got, post)))
+            if rc == 0 and oc != 'OPost':
+                report('silent', '%s, but the dataset is not the complete result (outcome %s)' % (where, oc))
+            # model: the process was inside the publishing action (commit / exit of the
+            # with block) — that action never completed, so the trace stops before it
+            tr = traces[step]
+            pub = [k for k, (kd, _) in enumerate(tr.points) if kd in ('commit-before', 'exit-before')]
+            if rc != 0 and phase.startswith('db-page-write') and pub and coq_wanted(coq, step, tr.events, out):
+                att = events_before_point((tr.events, tr.points, index_points(tr)), pub[0])
+                try:
+                    coq['txn'].append(('(%s, %s, None, %s)' % (cevs(tr.events), cevs(att), oc), c,
+                                       'step=%s killed by the kernel inside the commit (limit %d) attempt=%s outcome=%s'
+                                       % (step, limit, summarize(att), oc)))
+                except ValueError:
+                    pass  # event outside the model: reported by the shape stage
+            tr2, exc2 = T.run_cli(w.argv(step, db))
+            problem2, again = open_checked(db)
+            if problem2 is not None or again != post or (oc == 'OPre' and exc2 is not None):
+                report('rerun', 'killed while writing: %s (outcome %s). Running the step again %s; %s'
+                       % (where, oc, 'raised %s: %s' % (type(exc2).__name__, exc2) if exc2 else 'succeeded',
+                          problem2 or 'tables differing from the fault-free result: %s' % diff_tables(again, post)))
+        for f in (db, db + '-journal'):
+            if os.path.exists(f):
+                os.remove(f)
+
+
+def fine_variant(w, out):
+    """The same record on a much finer water-level grid (halved until <= 0.07 mm): set-zeta-grid, rise and
+    recession then write enough rows for the file to GROW in the commit (on the
+    generated grids every step fits into pages the file already has)."""
+    rec = w.rec
+    if 'sample' in rec:
+        return None
+    grid = float(rec['grid_mm'])
+    while grid > 0.07:
+        grid /= 2.0
+    fw = Work(dict(rec, grid_mm=grid), w.tag + 'fine')
+    can = canonical(fw, out, None)
+    if can is None:
+        out.count('kill-in-commit:fine-grid-variant-unusable')
+        shutil.rmtree(fw.dir, ignore_errors=True)
+        return None
+    return (fw,) + can
+
+
 # ------------------------------------------------------------------ (c) histories
 
 def failing_attempt(w, db, rng, done, traces, out, case, coq):
@@ -541,7 +763,10 @@ def run_coq(coq, out):
                           % (fn, text), case=c)
 
 
-def check_dataset(rec, tag, out, rng, tier, coq, limit=None, kills=8, kill_all=False, orders=True):
+def check_dataset(rec, tag, out, rng, tier, coq, limit=None, kills=8, kill_all=False, orders=True,
+                  ckills=2, ckills_fine=None, fine=False, seed=0):
+    """ckills / ckills_fine: kills inside the commit per step on the dataset as it is / on its
+    fine-grid variant (None: every limit; 0: none)."""
     w = Work(rec, tag)
     case = dict(rec=rec)
     can = canonical(w, out, case)
@@ -553,6 +778,15 @@ def check_dataset(rec, tag, out, rng, tier, coq, limit=None, kills=8, kill_all=F
     out.count('fault-points', sum(len(traces[s].points) for s in STEPS))
     check_shape(w, traces, out, case, coq)
     check_faults(w, states, dumps, traces, out, case, coq, rng, limit=limit, kills=kills, kill_all=kill_all)
+    crng = C.rng_for(seed, PROP, 'commit-kill', tag)  # own stream: the older stages keep their draws
+    if ckills != 0:
+        check_commit_kills(w, states, dumps, traces, out, case, coq, crng, per_step=ckills)
+    if fine:
+        fv = fine_variant(w, out)
+        if fv is not None:
+            fw, fstates, fdumps, ftraces = fv
+            check_commit_kills(fw, fstates, fdumps, ftraces, out, dict(rec=fw.rec), coq, crng, per_step=ckills_fine)
+            shutil.rmtree(fw.dir, ignore_errors=True)
     if orders:
         check_orders(w, states, dumps, traces, out, case, coq, rng)
     shutil.rmtree(w.dir, ignore_errors=True)
@@ -569,25 +803,43 @@ def run(ctx, out):
         rec = valid_record(C.rng_for(seed, PROP, 'ds', i), out, size='small' if i % 3 != 2 else 'medium',
                            gaps=[1, 0, 2][i % 3])  # several gap-free stretches: classify loops over them
         recs.append(rec)
-        check_dataset(rec, 'ds%d' % i, out, rng, tier, coq, kills=12 if tier == 'quick' else 20,
-                      kill_all=(tier == 'thorough' and i < 2))
+        full = tier == 'thorough' and i < 2
+        # kills inside the commit.  quick: 2 per step on ds0's fine-grid variant (its commits make the
+        # file grow) and 2 per step on ds1 as it is; thorough: every limit on both forms of ds0 and ds1,
+        # 2 per step on the others (even ones on the fine grid)
+        check_dataset(rec, 'ds%d' % i, out, rng, tier, coq, kills=12 if tier == 'quick' else 20, kill_all=full,
+                      seed=seed, fine=full or i % 2 == 0,
+                      ckills=None if full else 0 if i % 2 == 0 else 2, ckills_fine=None if full else 2)
     if tier == 'thorough':
-        check_dataset(dict(sample=1), 'sample1', out, rng, tier, coq, limit=10, kills=5, orders=False)
+        check_dataset(dict(sample=1), 'sample1', out, rng, tier, coq, limit=10, kills=5, orders=False,
+                      seed=seed, ckills=2)
     run_coq(coq, out)
     out.rule = ('Datasets: synthetic saw-tooth records (storms with fast rises, dry recessions, overlapping in '
                 'level) on which load..recession all succeed%s. Every fault point of every step x {exception, '
                 'SQLite interrupt} in-process; SIGKILL of a CLI subprocess at sampled points (all points for 2 '
-                'datasets in thorough), with and without a spilling one-page cache; all orders of the '
+                'datasets in thorough), with and without a spilling one-page cache; kills by the kernel INSIDE '
+                'the commit: the plain command line under RLIMIT_FSIZE with SIGXFSZ at its default action, the '
+                'limit placed before / in the middle of pages the commit writes (2 limits per step on one dataset as '
+                'generated and on a fine level grid (<= 0.07 mm) of the other, whose commits make the file grow; every '
+                'dirty page, torn page and page boundary for 2 datasets in thorough), followed by PRAGMA '
+                'integrity_check, dump in {before, complete}, re-run; the phase hit is measured from the files left '
+                'behind (histogram kill-in-commit:<phase>:<outcome>); all orders of the '
                 'independent steps with failed attempts interleaved. Non-trivial: a fault that actually fired '
                 'with work to undo and left the previous content (distinct by dataset, step, point, kind), a '
-                'kill whose hot journal was replayed, an order whose final dump equals the canonical one.'
+                'kill whose hot journal was replayed (for kills inside the commit: the dataset file had changed, '
+                'a journal file was present, opening the file restored the previous content and removed the '
+                'journal; distinct by dataset, step, set of pages that had reached the file, torn pages), '
+                'an order whose final dump equals the canonical one.'
                 % (' plus field sample 1 (10 sampled fault points per step)' if tier == 'thorough' else ''))
     out.samples = [dict(level='dataset', record=recs[0])]
     out.assumptions += [
         'SQLite journalling / hot-journal recovery and the sqlite3 module are exercised by fault enumeration, '
         'not proved; the theorems cover the protocol (one transaction, commit last)',
-        'SIGKILL is delivered by the process to itself at the chosen statement (a real SIGKILL; kills inside '
-        'the COMMIT system calls are not enumerated)',
+        'SIGKILL is delivered by the process to itself at the chosen statement boundary (a real SIGKILL)',
+        'kills inside the commit are placed by a file size limit: the kernel kills the plain CLI process at a '
+        'write() of the journal or of the dataset file (whole pages and torn pages); kills between two system '
+        'calls that write nothing (fsync, unlink of the journal = the commit point itself) and loss of power '
+        '(unsynced data lost, reordered writes) are not produced',
         'equality of datasets = equality of the logical dump of all tables (harness.dataset.dump)']
 
 
@@ -596,6 +848,17 @@ def replay(case, out):
     rng = C.rng_for(0, PROP, 'replay')
     coq = dict(txn=[], shape=[], tables=[])
     rec = case['rec']
+    if case.get('level') == 'commit-kill':
+        w = Work(rec, 'replay')
+        can = canonical(w, out, case)
+        if can is None:
+            out.violation('corr', 'replay: the dataset does not carry the whole workflow', case=case)
+            return
+        check_commit_kills(w, can[0], can[1], can[2], out, dict(rec=rec), coq, rng,
+                           only=[(case['step'], int(case['limit']))])
+        run_coq(coq, out)
+        shutil.rmtree(w.dir, ignore_errors=True)
+        return
     check_dataset(rec, 'replay', out, rng, 'quick', coq, limit=10 if 'sample' in rec else None,
                   kills=12, orders='sample' not in rec, kill_all=(case.get('level') == 'kill' and 'sample' not in rec))
     run_coq(coq, out)
